@@ -24,7 +24,7 @@ from vcdd.oracle.ircmp import canon
 KINDS = ("function_parse_partial", "emit_class", "emit_function", "emit_argparse", "emit_sqlalchemy", "emit_docstring",
          "json_schema", "infer_imports", "merge_assignment_lists", "gen_file", "gen_file_imports", "doctrans",
          "openapi", "class_parse", "sync_properties", "optimise_imports", "emit_sqlalchemy_custom", "docstring_parse",
-         "function_parse_footer", "gen_phase1", "json_schema_set_default", "gen_file_infer", "gen_dir")
+         "function_parse_footer", "gen_phase1", "json_schema_set_default", "gen_file_infer", "gen_dir", "gen_imports_from_file")
 
 # a small shared pool of type names the converters have no table entry for: a later case meets names an earlier
 # (or an interleaved, unrelated) conversion has already seen - what a module-level table that learns would change
@@ -193,10 +193,32 @@ def run_case(kind, r, tmp):
             with open(inp, "w") as f:
                 f.write(class_module(r))
             outp, parse_name = inp.replace("inf_", "outf_"), "infer"
-        emit_name = r.choice(("class", "argparse", "sqlalchemy", "pydantic"))
+        emit_name = r.choice(("class", "argparse", "sqlalchemy", "sqlalchemy_table"))
         cdd.compound.gen.gen(name_tpl="{name}" if emit_name.startswith("sqlalchemy") else "{name}Gen", input_mapping=inp,
                              parse_name=parse_name, emit_name=emit_name, output_filename=outp,
                              emit_and_infer_imports=r.random() < 0.5)
+        with open(outp) as f:
+            return f.read()
+    if kind == "gen_imports_from_file":
+        # `gen --imports-from-file`: the import statements of a second file are copied to the top of the output, several
+        # distinct ones (and a repeated one), in the order they have there
+        import cdd.compound.gen
+
+        inp = os.path.join(tmp, "inpi_%d.py" % r.randint(0, 10 ** 9))
+        with open(inp, "w") as f:
+            f.write(class_module(r))
+        pool = ["import os", "import sys", "from collections import OrderedDict", "from typing import Optional",
+                "from json import dumps", "import os.path", "from typing import List, Union", "import re as regex",
+                "from typing import Literal"]
+        stmts = r.sample(pool, r.randint(2, 6))
+        if r.random() < 0.4:
+            stmts.append(stmts[0])
+        imp = os.path.join(tmp, "imports_%d.py" % r.randint(0, 10 ** 9))
+        with open(imp, "w") as f:
+            f.write("\n".join(stmts) + "\n\nX = 1\n")
+        outp = inp.replace("inpi_", "outi_")
+        cdd.compound.gen.gen(name_tpl="{name}Gen", input_mapping=inp, parse_name="class", emit_name=r.choice(("class", "argparse")),
+                             output_filename=outp, imports_from_file=imp, prepend=None if r.random() < 0.5 else "# header\n")
         with open(outp) as f:
             return f.read()
     if kind in ("gen_file", "gen_file_imports"):
